@@ -5,7 +5,7 @@ import handles as H
 import C01 as c01
 
 PROP = 'C10'
-REPLAYERS = {'pool.TaskHandler.body': 'replayers/taskhandler_slot.py', 'pool.Pool.apply_async': 'replayers/apply_async_slot.py',
+REPLAYERS = {'pool.TaskHandler.body': 'replayers/taskhandler_slot.py', 'pool.Pool.apply_async': 'replayers/apply_async_slot.py', 'pool.Pool._maintain_pool': 'replayers/pool_size.py',
 }
 
 ASSUMPTIONS = [
